@@ -130,13 +130,26 @@ Definition wf_scenario (S : scenario) : Prop :=
   | DWhole nm _ _ => exists t, (do c <- last_comp nm ;; comp_get_type c) = Ok t /\ t <> TYPE_SEGMENT
   end.
 
-(* the keys a fetch has to obtain, in the order in which they are needed *)
-Definition needed (S : scenario) : list key :=
-  KDisc :: match disc S with
-           | DWhole _ _ _ => []
-           | DSeg O => map KSeg (seq 1 (nseg (obj S) - 1))
-           | DSeg _ => map KSeg (seq 0 (nseg (obj S)))
-           end.
+(* the keys a fetch has to obtain: the discovery Interest, then the segments from [first_needed]
+   on in increasing order (segment 0 comes with the discovery answer when that answer is segment 0) *)
+Definition first_needed (S : scenario) : nat := match disc S with DSeg O => 1 | _ => 0 end.
+Definition needed (S : scenario) (k : key) : Prop :=
+  match k with
+  | KDisc => True
+  | KSeg i => match disc S with DWhole _ _ _ => False | DSeg _ => first_needed S <= i < nseg (obj S) end
+  end.
+(* the contents a consumer has received when it is about to ask for key k *)
+Definition contents_before (S : scenario) (k : key) : list bytes :=
+  match k with KDisc => [] | KSeg j => map (content (obj S)) (seq 0 j) end.
+Definition all_contents (S : scenario) : list bytes :=
+  match disc S with DWhole _ c _ => [c] | DSeg _ => map (content (obj S)) (seq 0 (nseg (obj S))) end.
+(* key k' is asked before key k *)
+Definition before (k' k : key) : Prop :=
+  match k', k with
+  | KDisc, KSeg _ => True
+  | KSeg i, KSeg j => i < j
+  | _, KDisc => False
+  end.
 
 (* "lost fewer than retry_times times in a row, then delivered" *)
 Definition tolerable (S : scenario) (retry : nat) (k : key) : Prop := result_of S retry k = KAnswered.
@@ -144,3 +157,5 @@ Definition tolerable_explicit (S : scenario) (retry : nat) (k : key) : Prop :=
   exists j, j < attempts_of retry /\ fate_of S k j = Delivered /\ forall j', j' < j -> fate_of S k j' = Lost.
 Definition exhausted (S : scenario) (retry : nat) (k : key) : Prop :=
   forall j, j < attempts_of retry -> fate_of S k j = Lost.
+Definition no_faults (S : scenario) : Prop := forall k n, fate_of S k n = Lost \/ fate_of S k n = Delivered.
+Definition exc_of (r : key_result) : exc := match r with KFailed x => x | _ => XTimeout end.
